@@ -30,6 +30,9 @@ def wsOnly : Piece → Bool
   | sep w => !w.isEmpty && w.all (fun c => c == ' ' || c == '\n')
 end Piece
 
+/-- length in UTF-8 bytes (slip's node sizes are byte counts) -/
+def byteLen (cs : List Char) : Nat := cs.foldl (fun n c => n + (utf8Bytes c).length) 0
+
 def renderPieces (ps : List Piece) : List Char := ps.flatMap Piece.text
 
 def nilText (cfg : PCfg) : List Char := caseName cfg.case ['n', 'i', 'l']
@@ -107,15 +110,15 @@ mutual
   /-- `node.size` of `createTree` -/
   def nodeSize (cfg : PCfg) (margin : Nat) : Obj → Nat
     | .cons a d => 1 + (1 + tailCount d) + nodeSize cfg margin a + tailSize cfg margin d
-    | .vec e => (renderPieces (vecWrap cfg e (prettyPieces cfg margin 0 0 e))).length
-    | .arr r c => (renderPieces (arrWrap cfg r c (prettyPieces cfg margin 0 0 c))).length
-    | .nil => (nilText cfg).length
+    | .vec e => byteLen (renderPieces (vecWrap cfg e (prettyPieces cfg margin 0 0 e)))
+    | .arr r c => byteLen (renderPieces (arrWrap cfg r c (prettyPieces cfg margin 0 0 c)))
+    | .nil => byteLen (nilText cfg)
     | .t => 1
-    | .int n => (printInt cfg n).length
-    | .ratio n d => (printRatio cfg n d).length
-    | .str s => (printStr cfg s).length
-    | .chr c => (printChr c).length
-    | .sym name => (printSym cfg name).length
+    | .int n => byteLen (printInt cfg n)
+    | .ratio n d => byteLen (printRatio cfg n d)
+    | .str s => byteLen (printStr cfg s)
+    | .chr c => byteLen (printChr c)
+    | .sym name => byteLen (printSym cfg name)
   /-- size of the second node of a list: the next element, or the dot (size 1) -/
   def headSize (cfg : PCfg) (margin : Nat) : Obj → Nat
     | .cons b _ => nodeSize cfg margin b
@@ -124,13 +127,13 @@ mutual
     | .nil => 0
     | .cons a d => nodeSize cfg margin a + tailSize cfg margin d
     | .t => 1
-    | .int n => (printInt cfg n).length
-    | .ratio n d => (printRatio cfg n d).length
-    | .str s => (printStr cfg s).length
-    | .chr c => (printChr c).length
-    | .sym name => (printSym cfg name).length
-    | .vec e => (renderPieces (vecWrap cfg e (prettyPieces cfg margin 0 0 e))).length
-    | .arr r c => (renderPieces (arrWrap cfg r c (prettyPieces cfg margin 0 0 c))).length
+    | .int n => byteLen (printInt cfg n)
+    | .ratio n d => byteLen (printRatio cfg n d)
+    | .str s => byteLen (printStr cfg s)
+    | .chr c => byteLen (printChr c)
+    | .sym name => byteLen (printSym cfg name)
+    | .vec e => byteLen (renderPieces (vecWrap cfg e (prettyPieces cfg margin 0 0 e)))
+    | .arr r c => byteLen (renderPieces (arrWrap cfg r c (prettyPieces cfg margin 0 0 c)))
   /-- `appendTree` for one object starting at column `offset`, with `closes` parentheses to follow -/
   def prettyPieces (cfg : PCfg) (margin offset closes : Nat) : Obj → List Piece
     | .cons a d =>
@@ -163,17 +166,17 @@ mutual
       let ch := chooseSep margin off pos (nodeSize cfg margin a) t
       .sep ch.1 :: prettyPieces cfg margin ch.2.1 t a ++ prettyTail cfg margin off ch.2.2 closes d
     | .t => dottedTail margin off pos closes 1 [.tok ['t']]
-    | .int n => dottedTail margin off pos closes (printInt cfg n).length [.tok (printInt cfg n)]
-    | .ratio n d => dottedTail margin off pos closes (printRatio cfg n d).length [.tok (printRatio cfg n d)]
-    | .str s => dottedTail margin off pos closes (printStr cfg s).length [.tok (printStr cfg s)]
-    | .chr c => dottedTail margin off pos closes (printChr c).length [.tok (printChr c)]
-    | .sym name => dottedTail margin off pos closes (printSym cfg name).length [.tok (printSym cfg name)]
+    | .int n => dottedTail margin off pos closes (byteLen (printInt cfg n)) [.tok (printInt cfg n)]
+    | .ratio n d => dottedTail margin off pos closes (byteLen (printRatio cfg n d)) [.tok (printRatio cfg n d)]
+    | .str s => dottedTail margin off pos closes (byteLen (printStr cfg s)) [.tok (printStr cfg s)]
+    | .chr c => dottedTail margin off pos closes (byteLen (printChr c)) [.tok (printChr c)]
+    | .sym name => dottedTail margin off pos closes (byteLen (printSym cfg name)) [.tok (printSym cfg name)]
     | .vec e =>
       let inner := vecWrap cfg e (prettyPieces cfg margin 0 0 e)
-      dottedTail margin off pos closes (renderPieces inner).length inner
+      dottedTail margin off pos closes (byteLen (renderPieces inner)) inner
     | .arr r c =>
       let inner := arrWrap cfg r c (prettyPieces cfg margin 0 0 c)
-      dottedTail margin off pos closes (renderPieces inner).length inner
+      dottedTail margin off pos closes (byteLen (renderPieces inner)) inner
 end
 
 /-- the pretty text (`Printer.Append` with `*print-pretty*`): lists, vectors and arrays are laid
